@@ -212,6 +212,32 @@ fn make_jwk_did() -> (String, String) {
   (did, jwk_json)
 }
 
+/// Different did:jwk DIDs that encode the same key material as `jwk_json`: the JWK itself, the JWK with another `kid`
+/// / `alg` / `use`, its members in reverse order, and with insignificant whitespace. Returns (DID, JWK text).
+fn jwk_variants(jwk_json: &str) -> Vec<(String, String)> {
+  let base: serde_json::Value = serde_json::from_str(jwk_json).unwrap();
+  let did_of = |text: &str| format!("did:jwk:{}", identity_jose::jwu::encode_b64(text.as_bytes()));
+  let mut out = vec![(did_of(jwk_json), jwk_json.to_owned())];
+  let mut with_kid = base.clone();
+  with_kid["kid"] = "another-kid".into();
+  out.push((did_of(&with_kid.to_string()), with_kid.to_string()));
+  let mut other_alg = base.clone();
+  other_alg["alg"] = if base.get("alg").and_then(|a| a.as_str()) == Some("EdDSA") { "ES256".into() } else { "EdDSA".into() };
+  out.push((did_of(&other_alg.to_string()), other_alg.to_string()));
+  let members: Vec<String> = base
+    .as_object()
+    .unwrap()
+    .iter()
+    .rev()
+    .map(|(k, v)| format!("{}:{}", serde_json::Value::from(k.as_str()), v))
+    .collect();
+  let reversed = format!("{{{}}}", members.join(","));
+  out.push((did_of(&reversed), reversed));
+  let spaced = format!("{{ {} }}", members.join(" , "));
+  out.push((did_of(&spaced), spaced));
+  out
+}
+
 fn classify_err(e: &identity_resolver::Error) -> Expect {
   match e.error_cause() {
     ErrorCause::DIDParsingError { .. } => Expect::ParseError,
@@ -471,6 +497,7 @@ impl Engine for ResEngine {
       "probe.unsupported_single".to_owned(),
       "probe.parse_error_single".to_owned(),
       "probe.did_jwk_resolved".to_owned(),
+      "probe.did_jwk_same_key_variants_resolved_together".to_owned(),
     ];
     if tier == "thorough" {
       v.push("cover:perm4>=24".to_owned());
@@ -519,8 +546,10 @@ impl Engine for ResEngine {
         universe.push((bad, Expect::Unsupported("iota".to_owned())));
       }
     }
+    let jwk_base: Option<String>;
     {
       let (did, jwk) = make_jwk_did();
+      jwk_base = Some(jwk.clone());
       let bad = "did:jwk:abc".to_owned();
       if with_jwk {
         universe.push((did, Expect::JwkDoc(jwk)));
@@ -815,6 +844,62 @@ impl Engine for ResEngine {
             "multi/error-of-no-failing-did",
             format!("error {got:?} is not the error of any failing DID {failing:?}"),
           );
+        }
+      }
+    }
+    // ---- phase 3: resolve_multiple typed with DIDJwk over different DIDs that encode the same key material ----
+    if let (true, Some(base)) = (with_jwk, &jwk_base) {
+      if ctx::choose(2) == 0 {
+        let variants = jwk_variants(base);
+        let mut input: Vec<(String, String)> = Vec::new();
+        for _ in 0..2 + ctx::choose(4) {
+          input.push(variants[ctx::choose(variants.len())].clone());
+        }
+        let typed: Vec<identity_did::DIDJwk> = input.iter().filter_map(|(d, _)| d.parse().ok()).collect();
+        if typed.len() == input.len() {
+          let distinct_in: BTreeSet<&str> = input.iter().map(|(d, _)| d.as_str()).collect();
+          ctx::stat("probe.did_jwk_same_key_variants_resolved_together");
+          ctx::sched("jwk_variants", distinct_in.len() as u64);
+          let out: RefCell<Option<Result<HashMap<identity_did::DIDJwk, CoreDocument>, identity_resolver::Error>>> = RefCell::new(None);
+          let polls = match &resolver {
+            ResolverKind::SendSync(r) => drive(prop, "multi-jwk", r.resolve_multiple(&typed), &out, true),
+            ResolverKind::Single(r) => drive(prop, "multi-jwk", r.resolve_multiple(&typed), &out, true),
+          };
+          if polls.is_none() {
+            return;
+          }
+          match out.into_inner().expect("root finished") {
+            Err(e) => ctx::violation(
+              prop,
+              "C20.one_entry_per_distinct_did",
+              "multi-jwk/error",
+              format!("resolve_multiple over did:jwk DIDs {input:?} failed: {e}"),
+            ),
+            Ok(m) => {
+              let got: BTreeSet<String> = m.keys().map(|k| k.as_str().to_owned()).collect();
+              let want: BTreeSet<String> = distinct_in.iter().map(|d| (*d).to_owned()).collect();
+              if got != want || m.len() != want.len() {
+                ctx::violation(
+                  prop,
+                  "C20.one_entry_per_distinct_did",
+                  "multi-jwk/key-set-differs",
+                  format!("{} distinct did:jwk DIDs of one key went in, {} entries came out", want.len(), m.len()),
+                );
+              } else {
+                for (d, jwk_json) in &input {
+                  match m.iter().find(|(k, _)| k.as_str() == d) {
+                    Some((_, doc)) => check_doc(prop, "multi-jwk", d, doc, &Expect::JwkDoc(jwk_json.clone())),
+                    None => unreachable!(),
+                  }
+                  // lookup by the typed key must hand out the document of that DID
+                  if let Some(doc) = d.parse::<identity_did::DIDJwk>().ok().and_then(|k| m.get(&k)) {
+                    check_doc(prop, "multi-jwk-get", d, doc, &Expect::JwkDoc(jwk_json.clone()));
+                  }
+                }
+              }
+            }
+          }
+          ctx::trace(format!("multi-jwk over {} variants of one key", distinct_in.len()));
         }
       }
     }
